@@ -34,19 +34,23 @@ check("C04", "TLC model checking of Eval.tla (stack machine = recursive semantic
       "for every postfix program (<=3 leaves quick, <=4 replayed and <=5 spec-only thorough) under every RC assignment; every complete "
       "program enumerated by TLC is rendered, evaluated by the real requirement_constraint_evaluation and compared (error class, "
       "fulfilled, conditional); every callback of the real RequirementConstraintTransformer on unit-test literals and seeded random "
-      "expressions (<=25 leaves) is validated by TLC against the machine (EvalTrace.tla).", EVAL_NOTE, "DESIGN.md 3.4, 5/C04")
+      "expressions (<=25 leaves) is validated by TLC against the machine (EvalTrace.tla); so is every transformer run recorded while the "
+      "repository's own test suite executes (pytest plugin), and the evaluated sub-expressions of tlc -simulate behaviours up to 8 leaves are "
+      "replayed; abstract keys are mapped by seed to boundary key numbers (499, 500, 900, 901, 999, 2000, 2499).", EVAL_NOTE, "DESIGN.md 3.4, 5/C04")
 check("C05", "TLC model checking of the four metamorphic laws on Eval.tla + replay of every (original, transformed) pair on the real evaluator",
       "The laws (hint and-ed at any admissible position, FC attached to any RC-carrying sub-expression, operand swap, stability of "
       "definite outcomes under refinement of UNKNOWN) are TLC invariants over every valid expression in the bound at every position; "
       "each law instance is also executed on the real code (both members of the pair), together with redundant-bracket variants "
-      "(doubled brackets; minimal brackets relying on the documented precedence with mixed operator spellings).", EVAL_NOTE,
+      "(doubled brackets; minimal brackets relying on the documented precedence with mixed operator spellings); the same pairs on seeded random "
+      "expressions with 5-10 leaves.", EVAL_NOTE,
       "DESIGN.md 3.4, 5/C05")
 check("C06", "TLC model checking of ValidityIsStructural on Eval.tla + replay at three entry points (condition evaluation, AHB evaluation "
       "with one and two parts, is_valid_expression)",
       "TLC proves within the bound that the machine raises the invalid-expression error iff the tree is structurally invalid (SValid), "
       "independently of the assignment; every enumerated program is replayed under every assignment through "
       "requirement_constraint_evaluation and evaluate_ahb_expression_tree (as single part and inside two-part AHB expressions) and once "
-      "per tree through is_valid_expression.", EVAL_NOTE, "DESIGN.md 3.4, 5/C06")
+      "per tree through is_valid_expression; recorded runs of random expressions up to 10 leaves are validated by TLC and their validity-check verdict "
+      "must agree with evaluation.", EVAL_NOTE, "DESIGN.md 3.4, 5/C06")
 check("C07", "TLC model checking of FcMeaning on Eval.tla + replay (real collected expression parsed by the real parser and evaluated by the "
       "real format_constraint_evaluation under every truth assignment) + TLC trace validation comparing collected expressions by meaning",
       "TLC proves within the bound that the collected FC expression of the machine is well-formed, mentions only FC keys of the source and "
@@ -61,7 +65,7 @@ check("C08", "TLC model checking of FcEval.tla (machine = Boolean value; message
       "callback-level machine computes the Boolean value and carries a message iff unfulfilled, given the precondition on leaves; every "
       "program is replayed through format_constraint_evaluation (two kinds of evaluators, including the default-message path) and "
       "evaluate_format_constraint_tree, with fully bracketed and precedence-reliant renderings; None and '' must be fulfilled; recorded "
-      "callbacks on random expressions <=20 leaves are validated by TLC.",
+      "callbacks on random expressions <=20 leaves and the FC transformer runs of the repository's own test suite are validated by TLC.",
       "Trusted: TLC, renderer, projection of messages to presence. Precondition read as in DESIGN 6.4.", "DESIGN.md 3.5, 5/C08")
 
 check("C01", "TLC model checking of CondParser.tla (operator-precedence machine = declarative split-at-lowest-operator reading) + replay of every "
@@ -93,7 +97,8 @@ check("C09", "TLC model checking of AhbSplit.tla (split) and AhbEval.tla (select
       "first-fulfilled-else-last selection (incl. irrelevance of later parts); every accepted sequence is parsed by the real resolver in "
       "plain and seeded spellings and must give the spec's parts; every part list is realised as an expression with seeded condition "
       "shapes and evaluated: indicator and outcome must be the spec's deciding part, and outcome/hints/format expression/format "
-      "result must equal the real evaluation of that part's condition on its own; bare indicators are re-evaluated between cases.",
+      "result must equal the real evaluation of that part's condition on its own; bare indicators are re-evaluated between cases; results of random "
+      "expressions with 4-9 parts are decided by TLC (AhbEvalTrace.tla).",
       "Trusted: TLC, renderer, projection. requirement_is_conditional compared only for single parts (DESIGN 6.6a).", "DESIGN.md 3.3, 3.6, 5/C09")
 
 VAL_NOTE = ("Trusted: TLC; the renderer from node labels to AHB expressions under a fixed content evaluation result (keys 1,2 fulfilled; 3,4 unfulfilled; "
@@ -105,24 +110,28 @@ check("C13", "TLC model checking of Validation.tla (documented recursive walk; E
       "up to 4 (thorough 5) nodes, and proves on each the structural properties of the documented walk; every tree <=3 nodes and a seeded sample of "
       "the larger ones is rendered as a maus DeepAnwendungshandbuch with seeded expression shapes and validated by the real code with both flag "
       "values: reported nodes, their order, statuses and FILLED/EMPTY suffixes must equal the spec's list; an undetermined MUSS/prefix node must "
-      "give NotImplementedError.", VAL_NOTE, "DESIGN.md 3.10, 5/C13")
+      "give NotImplementedError; validate_segment_level on single roots, data elements sharing one discriminator, and real results of random AHBs with "
+      "5-30 nodes decided by TLC (ValidationTrace.tla).", VAL_NOTE, "DESIGN.md 3.10, 5/C13")
 check("C14", "TLC model checking of SollEquivalence on Validation.tla + replay: flag runs against runs on the textually rewritten AHB (real code on both "
       "sides) and against the spec",
       "TLC proves Validate(t, TRUE) = Validate(t[SOLL:=MUSS], any flag) and Validate(t, FALSE) = Validate(t[SOLL:=KANN], any flag) for every tree in "
       "the bound; for every enumerated tree containing SOLL (seeded sample for 4-5 nodes) the real code validates the AHB with each flag value and "
-      "the AHB whose SOLL indicator words are replaced by Muss/Kann under both flag values; all must agree with each other and the spec.",
+      "the AHB whose SOLL indicator words are replaced by Muss/Kann under both flag values; all must agree with each other and the spec; the "
+      "same on random AHBs of 6-25 nodes.",
       VAL_NOTE, "DESIGN.md 3.10, 5/C14")
 check("C16", "TLC model checking of Containment on Validation.tla + replay: AHB with invalid expressions against the AHB with 'Kann' (real code on both "
       "sides) and against the spec",
       "TLC proves for every tree in the bound with INVALID labels at any subset of groups, segments, free-text elements and pool entries that the "
       "invalid nodes are optional and every other node is reported exactly as in the tree with 'Kann'; the real code validates both AHBs for a "
-      "seeded sample of all such trees <=4 (5) nodes: no exception, invalid node optional with hint, all other entries identical.",
+      "seeded sample of all such trees <=4 (5) nodes and random AHBs of 6-25 nodes: no exception, invalid node optional with hint, all other entries "
+      "identical; invalid expressions also with several modal marks and behind per-AHB package definitions.",
       VAL_NOTE, "DESIGN.md 3.10, 5/C16")
 check("C17", "TLC model checking of PoolRules on Validation.tla + exhaustive replay of every pool through three entry points",
       "TLC enumerates every value pool of 1-3 entries over {fulfilled, unfulfilled, unknown, invalid} x every entered input x parent status and proves the "
       "pool rules on the documented PoolResult; every one is validated by the real code through validate_deep_anwendungshandbuch, validate_segment "
       "and validate_data_element_valuepool: offered qualifiers in pool order, accepted iff offered, unexpected flagged and reported empty, forbidden "
-      "iff nothing offered or the segment is forbidden.", VAL_NOTE, "DESIGN.md 3.10, 5/C17")
+      "iff nothing offered or the segment is forbidden; real results for random pools of 1-14 entries whose qualifiers are prefixes/substrings of "
+      "each other are decided by TLC (PoolTrace.tla).", VAL_NOTE, "DESIGN.md 3.10, 5/C17")
 
 ASYNC_NOTE = ("Trusted: TLC; harness/plans.py (derivation of the series-parallel plan from the input = the model of where ahbicht gathers; checked against the "
               "code at run time: the set of awaitables the code starts must be the plan's, and the pending set must match at every step); the gate driver's "
@@ -152,7 +161,8 @@ check("C10", "TLC model checking of the substitution lemma on Resolve.tla (textu
       "that parsing the textually substituted expression gives the tree obtained by splicing the parsed package / time-condition trees at the "
       "leaves (one level, also for each step alone); every such expression is resolved by the real code (also inside AHB expressions, packages "
       "with and without repeatability) and compared with the spec's tree, with the real parse of the substituted text, step by step; unknown "
-      "packages must abort with NotImplementedError. Completion orders of the resolver awaitables are covered by C12.",
+      "packages must abort with NotImplementedError (also a package number written with leading zeros, which is a different key); random expressions "
+      "with 8-13 operands and up to 13 package occurrences are decided by TLC (ResolveTrace.tla). Completion orders are covered by C12.",
       "Trusted: TLC, renderer, n-ary normalisation with bracket spans of the substituted token sequence.", "DESIGN.md 3.7, 5/C10")
 
 check("C11", "TLC model checking of Cache.tla (heap with aliased list cells; Pure, CachePristine under the required deep-copy design; three aliasing copy "
@@ -172,7 +182,8 @@ check("C18", "TLC: partition of the key numbers as ASSUMEs, union law / ordering
       "keys, that extraction is once-per-category in ascending numeric order, that the extract of a composition is the union of the extracts, and "
       "that the product has 3^m*2^n elements; the class of each of the 2601 numbers is compared with derive_condition_node_type, every sequence is "
       "rendered as an expression and extracted by the real code (string and tree entry points, sum of extracts of two parts), and the generated "
-      "content evaluation results must be a duplicate-free list of valid combinations of exactly the product's size.",
+      "content evaluation results must be a duplicate-free list of valid combinations of exactly the product's size; extracts of random expressions "
+      "with 8-20 operands over the whole key range (also with package / time-condition resolution) are decided by TLC (KeysTrace.tla).",
       "Trusted: TLC (SetToSortSeq from the CommunityModules). m = n = 0 is recorded, not judged (DESIGN 6.5). Package keys are compared as sets "
       "(their order is not specified).", "DESIGN.md 3.11, 5/C18")
 
